@@ -64,7 +64,12 @@ func randomAliases(r *lib.Rng, allowBad bool) []Alias {
 	if allowBad {
 		idx[r.Intn(4)] = -1 - r.Intn(2)
 	}
-	return aliasVariant(idx)
+	as := aliasVariant(idx)
+	// the order in which the local types are declared is free: users before what they use, half of the time
+	if r.Chance(1, 2) {
+		as = shuffleAliases(r, as)
+	}
+	return as
 }
 
 func plainTypes() []*PTy {
@@ -504,4 +509,211 @@ func historyCorpus() []*History {
 		h.Kind = "history"
 	}
 	return hs
+}
+
+// ---- local types that refer to each other: every order of declaration ----------------------------------------------
+
+func permutations(n int) [][]int {
+	if n == 0 {
+		return [][]int{{}}
+	}
+	out := [][]int{}
+	for _, p := range permutations(n - 1) {
+		for i := 0; i <= len(p); i++ {
+			q := append(append(append([]int{}, p[:i]...), n-1), p[i:]...)
+			out = append(out, q)
+		}
+	}
+	return out
+}
+
+func shuffleAliases(r *lib.Rng, as []Alias) []Alias {
+	out := append([]Alias{}, as...)
+	for i := len(out) - 1; i > 0; i-- {
+		j := r.Intn(i + 1)
+		out[i], out[j] = out[j], out[i]
+	}
+	return out
+}
+
+type aliasShape struct {
+	name    string
+	aliases []Alias // in dependency order (helpers first) where there is one
+	params  []*PTy  // parameter types that use them
+	vals    []*PVal // values that tell the definitions apart
+}
+
+func aliasShapes() []aliasShape {
+	chain := func(n int) []Alias {
+		as := []Alias{{Name: "L0", T: tEnum("a", "b", "c")}}
+		for i := 1; i < n; i++ {
+			as = append(as, Alias{Name: "L" + string(rune('0'+i%10)) + string(rune('a'+i/10)), T: tRef(as[i-1].Name)})
+		}
+		return as
+	}
+	many := chain(11)
+	return []aliasShape{
+		{name: "items", aliases: []Alias{{Name: "Item", T: tIntR(0, 9)}, {Name: "Items", T: tArr(tRef("Item"), 1, nil)}},
+			params: []*PTy{tRef("Items"), tRef("Item"), tOpt(tRef("Items"))},
+			vals:   []*PVal{vArr(vInt(1), vInt(2)), vArr(vInt(9)), vArr(vInt(1), vInt(50)), vArr(), vStr("x"), vInt(3), vInt(50), vUndef()}},
+		{name: "chain", aliases: []Alias{{Name: "Mark", T: tEnum("a", "b", "c")}, {Name: "Grade", T: tRef("Mark")}, {Name: "Level", T: tRef("Grade")}},
+			params: []*PTy{tRef("Level"), tRef("Grade"), tVar(tRef("Level"), tInt())},
+			vals:   []*PVal{vStr("a"), vStr("c"), vStr("d"), vInt(1), vUndef()}},
+		{name: "ready-made", aliases: []Alias{{Name: "Small", T: tIntR(0, 5), Typed: true}, {Name: "Pair", T: tArr(tRef("Small"), 2, i64(2))}},
+			params: []*PTy{tRef("Pair"), tRef("Small")},
+			vals:   []*PVal{vArr(vInt(1), vInt(5)), vArr(vInt(1), vInt(6)), vArr(vInt(1)), vInt(5), vInt(6), vStr("a")}},
+		{name: "ready-made-middle", aliases: []Alias{{Name: "Small", T: tIntR(0, 5)}, {Name: "Word", T: tStrSz(2, nil), Typed: true},
+			{Name: "Mixed", T: tArr(tVar(tRef("Small"), tRef("Word")), 1, nil)}},
+			params: []*PTy{tRef("Mixed"), tRef("Word")},
+			vals:   []*PVal{vArr(vInt(1), vStr("ab")), vArr(vInt(6)), vArr(vStr("a")), vStr("ab"), vStr("a"), vArr()}},
+		{name: "mutual", aliases: []Alias{{Name: "Tree", T: tArr(tVar(tInt(), tRef("Branch")), 0, nil)}, {Name: "Branch", T: tArr(tRef("Tree"), 1, i64(1))}},
+			params: []*PTy{tRef("Tree"), tRef("Branch")},
+			vals: []*PVal{vArr(vInt(1), vInt(2)), vArr(vInt(1), vArr(vArr(vInt(2)))), vArr(vInt(1), vArr(vArr(vStr("x")))), vArr(vArr(vArr(vInt(1)), vArr(vInt(2)))),
+				vArr(vArr(vInt(1))), vArr(), vInt(1), vStr("x")}},
+		{name: "self", aliases: []Alias{{Name: "Nest", T: tVar(tIntR(0, 5), tArr(tRef("Nest"), 0, i64(2)))}},
+			params: []*PTy{tRef("Nest"), tArr(tRef("Nest"), 1, nil)},
+			vals:   []*PVal{vInt(3), vInt(7), vArr(vInt(1), vArr(vInt(2))), vArr(vInt(1), vArr(vInt(7))), vArr(vInt(1), vInt(2), vInt(3)), vArr(), vStr("a")}},
+		{name: "cycle3", aliases: []Alias{{Name: "A", T: tArr(tVar(tStr(), tRef("B")), 0, nil)}, {Name: "B", T: tOpt(tRef("C"))}, {Name: "C", T: tArr(tRef("A"), 0, i64(2))}},
+			params: []*PTy{tRef("A"), tRef("B"), tRef("C")},
+			vals: []*PVal{vArr(vStr("a")), vArr(vStr("a"), vUndef()), vArr(vArr(vArr(vStr("a")))), vArr(vArr(vArr(vInt(1)))), vArr(vArr(vStr("a"))), vUndef(), vArr(),
+				vArr(vArr(), vArr(), vArr()), vStr("a")}},
+		{name: "unknown-inside", aliases: []Alias{{Name: "Known", T: tIntR(0, 5)}, {Name: "Half", T: tVar(tRef("NoSuchType"), tRef("Known"))}},
+			params: []*PTy{tRef("Half"), tRef("Known")},
+			vals:   []*PVal{vInt(3), vInt(7), vStr("a")}},
+		{name: "does-not-resolve", aliases: []Alias{{Name: "Item", T: tIntR(9, 0)}, {Name: "Items", T: tArr(tRef("Item"), 1, nil)}},
+			params: []*PTy{tRef("Items")},
+			vals:   []*PVal{vArr(vInt(1))}},
+		// more local types than the builder's list has room for at first (capacity 8), declared users-first
+		{name: "many", aliases: many,
+			params: []*PTy{tRef(many[10].Name), tRef(many[8].Name), tRef(many[0].Name)},
+			vals:   []*PVal{vStr("a"), vStr("d"), vInt(1)}},
+	}
+}
+
+// forwardFns: for every shape and every order of its declarations (all for up to 3 local types, else reversed, rotated
+// and seeded shuffles): one function per parameter type P {Param(P)} {Param(Any)}, and one with all of them in a row.
+func forwardFns(r *lib.Rng) []*FnCase {
+	fn := Op{K: "Function"}
+	out := []*FnCase{}
+	for _, sh := range aliasShapes() {
+		orders := [][]Alias{}
+		n := len(sh.aliases)
+		if n <= 3 {
+			for _, p := range permutations(n) {
+				o := make([]Alias, n)
+				for i, k := range p {
+					o[i] = sh.aliases[k]
+				}
+				orders = append(orders, o)
+			}
+		} else {
+			rev := make([]Alias, n)
+			for i := range rev {
+				rev[i] = sh.aliases[n-1-i]
+			}
+			orders = append(orders, sh.aliases, rev, append(append([]Alias{}, sh.aliases[n/2:]...), sh.aliases[:n/2]...),
+				shuffleAliases(r, sh.aliases), shuffleAliases(r, sh.aliases))
+		}
+		calls := []CallIn{{Blk: -1}}
+		for _, v := range sh.vals {
+			calls = append(calls, CallIn{Args: []*PVal{v}, Blk: -1})
+		}
+		for i, v := range sh.vals {
+			calls = append(calls, CallIn{Args: []*PVal{v, sh.vals[(i+1)%len(sh.vals)]}, Blk: -1})
+		}
+		for _, o := range orders {
+			for _, p := range sh.params {
+				out = append(out, &FnCase{Kind: "dispatch", Aliases: o, Disps: [][]Op{{P("Param", p), fn}, {P("Param", tAny()), fn}}, Calls: calls})
+				out = append(out, &FnCase{Kind: "dispatch", Aliases: o, Disps: [][]Op{{P("Param", p), P("Rep", p), fn}}, Calls: calls})
+			}
+			all := [][]Op{}
+			for _, p := range sh.params {
+				all = append(all, []Op{P("Param", p), fn})
+			}
+			out = append(out, &FnCase{Kind: "dispatch", Aliases: o, Disps: all, Calls: calls})
+		}
+	}
+	return out
+}
+
+// ---- dispatches with many parameters: sizes across and beyond every capacity the builder starts with ----------------
+
+func longSizes(thorough bool) []int {
+	s := []int{1, 2, 7, 8, 9, 10, 11, 12, 15, 16, 17, 18, 23, 24, 25, 26, 33}
+	if thorough {
+		s = []int{}
+		for n := 1; n <= 42; n++ {
+			s = append(s, n)
+		}
+		s = append(s, 63, 64, 65, 66, 129)
+	}
+	return s
+}
+
+// longFns: a dispatch `long` with n parameters (n-1 Strings and one more of another type, declared required,
+// optional or repeated) first, in the middle and last among short dispatches, and two long dispatches in a row;
+// the calls differ from what `long` declares in the last positions only.
+func longFns(thorough bool) []*FnCase {
+	fn := Op{K: "Function"}
+	out := []*FnCase{}
+	sv := func(i int) *PVal { return vStr([]string{"s", "ab", "c"}[i%3]) }
+	for _, n := range longSizes(thorough) {
+		for li, lastK := range []string{"Param", "Opt", "Rep"} {
+			for ti, lastT := range []*PTy{tIntR(0, 9), tFloat()} {
+				long := []Op{}
+				for i := 0; i < n-1; i++ {
+					long = append(long, Op{K: "Param", T: tStr(), Typed: i%3 == 1})
+				}
+				long = append(long, Op{K: lastK, T: lastT}, fn)
+				// a second long dispatch: same length, the type before the last differs (Boolean ... then the same last one)
+				long2 := []Op{}
+				for i := 0; i < n-1; i++ {
+					t := tStr()
+					if i >= n-3 {
+						t = tBool()
+					}
+					long2 = append(long2, Op{K: "Param", T: t})
+				}
+				long2 = append(long2, Op{K: lastK, T: lastT}, fn)
+				flag := []Op{P("Param", tBool()), fn}
+				text := []Op{P("Param", tStr()), P("Opt", tFloat()), fn}
+				rest := []Op{P("Rep", tStr()), fn}
+
+				prefix := make([]*PVal, n-1)
+				for i := range prefix {
+					prefix[i] = sv(i)
+				}
+				good, other := vInt(int64(n%10)), vFloat(0.5)
+				if ti == 1 {
+					good, other = vFloat(1.5), vInt(3)
+				}
+				with := func(pre []*PVal, vs ...*PVal) CallIn {
+					return CallIn{Args: append(append([]*PVal{}, pre...), vs...), Blk: -1}
+				}
+				bprefix := append([]*PVal{}, prefix...)
+				for i := range bprefix {
+					if i >= n-3 {
+						bprefix[i] = vBool(i%2 == 0)
+					}
+				}
+				calls := []CallIn{with(prefix, good), with(prefix), with(prefix, vBool(true)), with(prefix, vStr("s")), with(prefix, vInt(50)), with(prefix, other),
+					with(prefix, good, good), with(prefix, good, vBool(true)), with(prefix, good, good, other), with(bprefix, good), with(bprefix, vBool(false)),
+					with(nil, vBool(true)), with(nil, vStr("s")), with(nil, vStr("s"), vFloat(0.5)), with(nil, vStr("s"), vBool(true)), with(nil)}
+				if n > 2 {
+					calls = append(calls, with(prefix[:n-2], good), with(prefix[:n-2], vBool(true), good))
+				}
+				var tables [][][]Op
+				switch (li + ti) % 2 {
+				case 0:
+					tables = [][][]Op{{long, flag, text}, {flag, long, text}, {flag, text, long}, {long, long2, flag}, {long}}
+				default:
+					tables = [][][]Op{{long, rest}, {long2, long, flag, text}, {text, long2, long}, {long, flag, text, rest, long2}}
+				}
+				for _, tb := range tables {
+					out = append(out, &FnCase{Kind: "dispatch", Disps: tb, Calls: calls})
+				}
+			}
+		}
+	}
+	return out
 }
